@@ -28,9 +28,14 @@ Inductive case :=
                                                    configuration order: id, addresses, types *)
         (fin : int)                             (* index (in the pool) of the configuration under test: the LAST one
                                                    every participant received; rows / ptable belong to it *)
-        (hists : list (int * list int))         (* per participant: self, the pool indices of the configurations it
-                                                   received through the real service: first = the one it was started
-                                                   with (Init), the others = updates (Run -> updateConfiguration) *)
+        (hists : list (int * int * list int))   (* per participant: self; what its store holds before the first start
+                                                   (pool index + 1, 0 = nothing stored); its LIFE through the real
+                                                   service as events 2*i = pool[i] delivered as an update
+                                                   (Run -> updateConfiguration), 2*i+1 = the process (re)started with
+                                                   app configuration pool[i] (Init, same store); the first event is a
+                                                   start *)
+        (actives : list (int * list int))       (* per participant (same order): observed Service.Id() (numbered) and
+                                                   the tree-typed peer ids of the observed Service.Configuration() *)
         (ptable : list int)                     (* observed CHash().GetPartitionMembers(0..P-1), packed *)
         (spaces : list (list int * list int))   (* space id (bytes), observed ReplKey(space id) (bytes) *)
         (answers : list int)                    (* 5 ints per answer: self, space index, Partition, packed NodeIds,
@@ -106,34 +111,67 @@ Definition node_eqb (a b : node) : bool :=
   (n_id a =? n_id b)%N && list_eqb N.eqb (n_addrs a) (n_addrs b) && list_eqb N.eqb (n_types a) (n_types b).
 Definition conf_eqb (a b : conf) : bool := (c_id a =? c_id b)%N && list_eqb node_eqb (c_nodes a) (c_nodes b).
 
-(* the model's state of a participant after its history (None: malformed history) *)
-Definition hist_state (pool : list conf) (h : list N) : option conf :=
-  match h with
-  | [] => None
-  | i :: r =>
-      match nth_error pool (N.to_nat i) with
-      | None => None
-      | Some c0 =>
-          if forallb (fun j => match nth_error pool (N.to_nat j) with Some _ => true | None => false end) r
-          then Some (run_history c0 (flat_map (fun j => match nth_error pool (N.to_nat j) with
-                                                        | Some c => [c] | None => [] end) r))
-          else None
+(* node lists equal as multisets (mergeCoordinatorAddrs appends nodes in Go's map iteration order) *)
+Definition count_node (n : node) (l : list node) : nat := length (filter (node_eqb n) l).
+Definition nodes_equiv (a b : list node) : bool :=
+  Nat.eqb (length a) (length b) && forallb (fun n => Nat.eqb (count_node n a) (count_node n b)) a.
+Definition conf_equiv (a b : conf) : bool := (c_id a =? c_id b)%N && nodes_equiv (c_nodes a) (c_nodes b).
+
+Fixpoint dec_events (pool : list conf) (l : list N) : option (list event) :=
+  match l with
+  | [] => Some []
+  | e :: r =>
+      match nth_error pool (N.to_nat (e / 2)), dec_events pool r with
+      | Some c, Some evs => Some ((if (e mod 2 =? 1)%N then EStart c else EUpd c) :: evs)
+      | _, _ => None
       end
   end.
 
-(* every participant's model state after its history is the configuration under test, and every answer comes from a
-   participant whose history is given: then the model's answers are those computed from [fin]'s table *)
-Definition hists_ok (pool : list conf) (fin : conf) (hists : list (N * list N)) (os : list obs) : bool :=
-  forallb (fun h => match hist_state pool (snd h) with Some c => conf_eqb c fin | None => false end) hists
-  && forallb (fun o => memN (o_self o) (map fst hists)) os.
+(* the model's service state of a participant after its life (None: malformed description) *)
+Definition life_state (pool : list conf) (self stored0 : N) (h : list N) : option service :=
+  let store0 := if (stored0 =? 0)%N then Some None
+                else match nth_error pool (N.to_nat (stored0 - 1)) with Some c => Some (Some c) | None => None end in
+  match store0, dec_events pool h with
+  | Some st, Some (EStart app :: evs) => Some (life self st app evs)
+  | _, _ => None
+  end.
+
+Fixpoint life_of (pool : list conf) (hists : list (N * N * list N)) (p : N) : option service :=
+  match hists with
+  | [] => None
+  | (self, stored0, h) :: r => if (self =? p)%N then life_state pool self stored0 h else life_of pool r p
+  end.
+
+(* every participant's model state after its life holds the configuration under test (same id, same nodes up to
+   order), and every answer comes from a participant whose life is given: then the model's answers are those of its
+   nodeConf - computed from [fin]'s table for the account id the nodeConf was stamped with *)
+Definition hists_ok (pool : list conf) (fin : conf) (hists : list (N * N * list N)) (os : list obs) : bool :=
+  forallb (fun h => match life_state pool (fst (fst h)) (snd (fst h)) (snd h) with
+                    | Some s => conf_equiv (svc_conf s) fin
+                    | None => false
+                    end) hists
+  && forallb (fun o => memN (o_self o) (map (fun h => fst (fst h)) hists)) os.
+
+Definition countN (x : N) (l : list N) : nat := length (filter (N.eqb x) l).
+Definition multiset_eqb (a b : list N) : bool :=
+  Nat.eqb (length a) (length b) && forallb (fun x => Nat.eqb (countN x a) (countN x b)) a.
+
+(* what every participant's real service says it holds: the id and the sync nodes of the configuration under test *)
+Definition actives_ok (fin : conf) (hists : list (N * N * list N)) (acts : list (N * list N)) : bool :=
+  Nat.eqb (length acts) (length hists)
+  && forallb (fun a => (fst a =? c_id fin)%N
+                       && multiset_eqb (snd a) (tree_ids (c_nodes fin))) acts.
 
 Definition conf_model_ok (ph : list N) (rows : list (N * list N)) (keys : list (list N * N)) (cfg : list node)
-           (ptable : list (list N)) (os : list obs) : bool :=
+           (pool : list conf) (hists : list (N * N * list N)) (ptable : list (list N)) (os : list obs) : bool :=
   match table ph (row_of rows) cfg with
   | OutOfFuel => false
   | Ok t =>
       list_eqb same_set t ptable
-      && forallb (fun o => obs_matches (model_obs ph (key_hash keys) t (o_self o) (o_space o)) o) os
+      && forallb (fun o => match life_of pool hists (o_self o) with
+                           | Some s => obs_matches (model_obs ph (key_hash keys) t (svc_self s) (o_space o)) o
+                           | None => false
+                           end) os
   end.
 
 Definition conf_spec_ok (cfg : list node) (ptable : list (list N)) (os : list obs) : bool :=
@@ -150,17 +188,19 @@ Definition chash_model_ok (ph : list N) (rf : nat) (rows : list (N * list N)) (m
 (* (spec_ok, model_ok) of a case *)
 Definition verdict (c : case) : bool * bool :=
   match c with
-  | CConf ph rows keys confs fin hists ptable spaces answers =>
+  | CConf ph rows keys confs fin hists actives ptable spaces answers =>
       let ph' := hashes ph in
       let pool := dec_confs confs in
       let finc := nth (N.to_nat (n_of fin)) pool (mkConf 0 []) in
       let cfg' := c_nodes finc in
-      let hs := map (fun h => (n_of (fst h), map n_of (snd h))) hists in
+      let hs := map (fun h => (n_of (fst (fst h)), n_of (snd (fst h)), map n_of (snd h))) hists in
+      let acts := map (fun a => (n_of (fst a), map n_of (snd a))) actives in
       let pt := map unpack ptable in
       let sp := map (fun s => (map n_of (fst s), map n_of (snd s))) spaces in
       let os := dec_answers sp answers in
       (conf_spec_ok cfg' pt os,
-       hists_ok pool finc hs os && conf_model_ok ph' (dec_rows rows) (dec_keys keys) cfg' pt os)
+       hists_ok pool finc hs os && actives_ok finc hs acts
+       && conf_model_ok ph' (dec_rows rows) (dec_keys keys) cfg' pool hs pt os)
   | CChash ph rf rows ms ptable =>
       let ms' := map n_of ms in
       let rf' := N.to_nat (n_of rf) in
